@@ -194,7 +194,7 @@ func (a *ioAnalysis) derives(v ssa.Value, seen map[ssa.Value]bool) (string, bool
 				}
 			case *ssa.FieldAddr:
 				// sticky field of the scanner
-				if _, f, ok := fieldAddrOf(ad); ok && f.Name() == "err" {
+				if _, f, ok := fieldAddrOf(ad); ok && isErrorType(f.Type()) {
 					return "scanner's stored read error", true
 				}
 			case *ssa.FreeVar:
@@ -264,7 +264,7 @@ func (a *ioAnalysis) propagates(e ssa.Value, seen map[ssa.Value]bool) (bool, str
 			if r.Val != e {
 				continue
 			}
-			if _, f, ok := fieldAddrOf(r.Addr); ok && f.Name() == "err" {
+			if _, f, ok := fieldAddrOf(r.Addr); ok && isErrorType(f.Type()) {
 				return true, "stored in the sticky error field"
 			}
 			if al, ok := r.Addr.(*ssa.Alloc); ok {
@@ -375,7 +375,7 @@ func (a *ioAnalysis) swallowPath(e ssa.Value, start *ssa.BasicBlock, ifBlk *ssa.
 		for _, ins := range b.Instrs {
 			switch ins := ins.(type) {
 			case *ssa.Store:
-				if _, f, ok := fieldAddrOf(ins.Addr); ok && f.Name() == "err" {
+				if _, f, ok := fieldAddrOf(ins.Addr); ok && isErrorType(f.Type()) {
 					return ""
 				}
 			case *ssa.Panic:
@@ -562,9 +562,9 @@ func (c *Ctx) stickyRule(scannerT *types.TypeName) {
 	entry := refill.Blocks[0]
 	ok1 := false
 	if ifi, ok := entry.Instrs[len(entry.Instrs)-1].(*ssa.If); ok {
-		if m, ok := asCmp(cond{ifi.Cond, true, entry}); ok && m.op == token.NEQ && isFieldLoad(m.x, scannerT, "err") && isNilConst(m.y) {
+		if m, ok := asCmp(cond{ifi.Cond, true, entry}); ok && m.op == token.NEQ && isFieldLoad(m.x, scannerT, c.fld("scanner.err")) && isNilConst(m.y) {
 			tb := entry.Succs[0]
-			if r, ok := tb.Instrs[len(tb.Instrs)-1].(*ssa.Return); ok && isFieldLoad(r.Results[0], scannerT, "err") {
+			if r, ok := tb.Instrs[len(tb.Instrs)-1].(*ssa.Return); ok && isFieldLoad(r.Results[0], scannerT, c.fld("scanner.err")) {
 				ok1 = true
 			}
 		}
@@ -580,7 +580,7 @@ func (c *Ctx) stickyRule(scannerT *types.TypeName) {
 	var stores []*ssa.Store
 	for _, f := range c.modFuncs {
 		eachInstr(f, func(ins ssa.Instruction) {
-			if st, ok := ins.(*ssa.Store); ok && isFieldAddr(st.Addr, scannerT, "err") {
+			if st, ok := ins.(*ssa.Store); ok && isFieldAddr(st.Addr, scannerT, c.fld("scanner.err")) {
 				stores = append(stores, st)
 			}
 		})
@@ -957,4 +957,10 @@ func (c *Ctx) useBeforeCheck(a *ioAnalysis) {
 		})
 	}
 	c.floor("IO-USEBEFORECHECK", 8)
+}
+
+// isErrorType: the field holds an error (the scanner's sticky read error, whatever it is called).
+func isErrorType(t types.Type) bool {
+	n, ok := t.(*types.Named)
+	return ok && n.Obj().Pkg() == nil && n.Obj().Name() == "error"
 }
